@@ -19,6 +19,7 @@ func (s PtrSet) IsEmpty() bool                 { return len(s) == 0 }
 func (s IntSet) Add(i int)                     { s[i] = null }
 func (s StrSet) Add(str string)                { s[str] = null }
 func (s PtrSet) Add(ptr interface{})           { s[ptrOf(ptr)] = null }
+func (s PtrSet) Remove(ptr interface{})        { delete(s, ptrOf(ptr)) }
 func (s IntSet) Contains(i int) bool           { return s[i] == null }
 func (s StrSet) Contains(str string) bool      { return s[str] == null }
 func (s PtrSet) Contains(ptr interface{}) bool { return s[ptrOf(ptr)] == null }
